@@ -1,6 +1,6 @@
 (* C03: invariants and wake-up theorems about the concrete syncvar model. *)
-From Coq Require Import List NArith Bool Lia.
-From QV Require Import Syncvar.Defs Syncvar.Model Syncvar.BitProofs.
+From Coq Require Import List NArith Bool Lia Permutation.
+From QV Require Import Syncvar.Defs Syncvar.Model Syncvar.BitProofs Syncvar.CellSpec.
 Import ListNotations.
 Local Open Scope N_scope.
 
@@ -20,4 +20,365 @@ Lemma overflow_rejected_l : forall x t v, two60 <= v ->
 Proof.
   intros x t v Hv. apply overflows_spec in Hv.
   unfold step_var, call, writeF, writeEF, writeEF_nb. rewrite Hv. auto.
+Qed.
+
+(* ---------- the invariant ---------- *)
+(* the four legal shapes of a syncvar: the state bits, the hash record and the waiter lists agree;
+   the word is a 64-bit value with the lock bit clear; every blocked writeEF carries a value that passed the overflow guard *)
+Definition vals_ok (l : list waiter) : Prop := Forall (fun Y => w_val Y < two60) l.
+Inductive shape : svar -> Prop :=
+| Sh0 : forall w, w < two64 -> lock_of w = false -> state_of w = 0 -> shape (mkV w None)
+| Sh1 : forall w X es, w < two64 -> lock_of w = false -> state_of w = 1 -> vals_ok (X :: es) ->
+        shape (mkV w (Some (mkM (X :: es) [] [])))
+| Sh2 : forall w, w < two64 -> lock_of w = false -> state_of w = 2 -> shape (mkV w None)
+| Sh3 : forall w fe ff, w < two64 -> lock_of w = false -> state_of w = 3 -> (nonnil fe || nonnil ff = true) ->
+        shape (mkV w (Some (mkM [] fe ff))).
+
+Definition fault_ev (e : event) : bool := match e with Fault => true | Ret _ RC_TIMEOUT _ => true | _ => false end.
+Definition has_fault (evs : list event) : bool := existsb fault_ev evs.
+
+Lemma ex_release_ff : forall v l, existsb fault_ev (release_ff v l) = false.
+Proof. intros v l. induction l as [|a l IH]; [reflexivity|]. cbn. exact IH. Qed.
+
+Lemma overflows_leb : forall v, overflows v = (two60 <=? v).
+Proof.
+  intro v. destruct (two60 <=? v) eqn:E.
+  - apply overflows_spec. apply N.leb_le. exact E.
+  - apply overflows_false. apply N.leb_gt. exact E.
+Qed.
+
+Global Opaque build_unlocked data_of state_of lock_of wrap64 wrap60 overflows.
+
+Ltac side :=
+  first [ assumption | apply build_lt | (apply lock_of_build; reflexivity) | (apply state_of_build; reflexivity)
+        | reflexivity | apply orb_true_r
+        | (constructor; [apply overflows_false; assumption | assumption])
+        | (constructor; [apply overflows_false; assumption | constructor])
+        | match goal with H : vals_ok (_ :: ?l) |- vals_ok ?l => inversion H; assumption end ].
+Ltac fin_shape := first [ apply Sh0; side | apply Sh2; side | apply Sh1; side | apply Sh3; side ].
+Ltac fin_fault :=
+  first [ reflexivity
+        | unfold has_fault; cbn [existsb fault_ev orb]; rewrite ?existsb_app, ?ex_release_ff; reflexivity ].
+
+Ltac start_op Hl Hs :=
+  unfold step_var, call, readFF, readFF_nb, readFE, readFE_nb, writeF, writeEF, writeEF_nb, fill, empty, incrF, status,
+         readFF_locked_full, readFE_locked_full, writeEF_locked_empty, empty_with_waiters, fill_with_waiters,
+         gotlock_fill, gotlock_empty, fill_state, mwaitc, syncvar_remove, all_empty, get_or_new, addrstat_new, prepend;
+  cbn [word rec EFQ FEQ FFQ]; rewrite ?Hl, ?Hs; cbn.
+
+Ltac ov_split := try match goal with |- context [overflows ?v] => destruct (overflows v) eqn:Hov end.
+
+Lemma step_var_shape : forall x t o x' evs,
+  shape x -> step_var x t o = (x', evs) -> shape x' /\ has_fault evs = false.
+Proof.
+  intros x t o x' evs Hx Hstep.
+  destruct Hx as [w Hw Hl Hs | w X es Hw Hl Hs Hv | w Hw Hl Hs | w fe ff Hw Hl Hs Hne].
+  - destruct o; revert Hstep; start_op Hl Hs; ov_split; cbn;
+      intro Hstep; inversion Hstep; subst; clear Hstep; (split; [fin_shape | fin_fault]).
+  - destruct o; revert Hstep; start_op Hl Hs; ov_split; try (destruct es as [|X2 es]); cbn;
+      intro Hstep; inversion Hstep; subst; clear Hstep; (split; [fin_shape | fin_fault]).
+  - destruct o; revert Hstep; start_op Hl Hs; ov_split; cbn;
+      intro Hstep; inversion Hstep; subst; clear Hstep; (split; [fin_shape | fin_fault]).
+  - destruct o; revert Hstep; start_op Hl Hs; ov_split; try (destruct fe as [|F1 [|F2 fe]]); cbn;
+      intro Hstep; inversion Hstep; subst; clear Hstep; (split; [fin_shape | fin_fault]).
+Qed.
+
+(* ---------- refinement of the abstract cell ---------- *)
+Definition abs (x : svar) : astate :=
+  let m := get_or_new (rec x) in
+  mkA (mkC (negb (N.testbit (state_of (word x)) 1)) (data_of (word x))) (EFQ m) (FEQ m) (FFQ m).
+
+(* the one place where the code leaves the clean spec: incrF whose sum reaches 2^60 (see incrF_wrap_refuted_l) *)
+Definition incr_in_range (x : svar) (o : op) : Prop :=
+  match o with IncrF inc => data_of (word x) + inc < two60 | _ => True end.
+
+Lemma wrap64_small60 : forall a, a < two60 -> wrap64 a = a.
+Proof.
+  intros a H. Transparent wrap64. unfold wrap64. Opaque wrap64. apply N.mod_small.
+  eapply N.lt_trans; [exact H|reflexivity].
+Qed.
+
+Ltac norm_words :=
+  repeat first
+    [ rewrite state_of_build by reflexivity
+    | rewrite data_of_build by reflexivity
+    | rewrite wrap64_small60 by assumption
+    | rewrite wrap60_small by first [ assumption | (apply data_of_lt; assumption) | (apply overflows_false; assumption)
+                                     | match goal with H : vals_ok (?X :: _) |- w_val ?X < two60 => inversion H; assumption end ] ].
+
+Lemma step_refines : forall x t o x' evs,
+  shape x -> incr_in_range x o -> step_var x t o = (x', evs) -> spec_step (abs x) t o = (abs x', evs).
+Proof.
+  intros x t o x' evs Hx Hg Hstep.
+  destruct Hx as [w Hw Hl Hs | w X es Hw Hl Hs Hv | w Hw Hl Hs | w fe ff Hw Hl Hs Hne].
+  - destruct o; revert Hstep; unfold spec_step, rejected, abs, wake, after; rewrite <- ?overflows_leb;
+      start_op Hl Hs; ov_split; cbn;
+      intro Hstep; inversion Hstep; subst; clear Hstep; cbn in Hg; cbn; rewrite ?Hs; norm_words; unfold release_ff; rewrite ?app_nil_r; cbn; reflexivity.
+  - destruct o; revert Hstep; unfold spec_step, rejected, abs, wake, after; rewrite <- ?overflows_leb;
+      start_op Hl Hs; ov_split; try (destruct es as [|X2 es]); cbn;
+      intro Hstep; inversion Hstep; subst; clear Hstep; cbn in Hg; cbn; rewrite ?Hs; norm_words; unfold release_ff; rewrite ?app_nil_r; cbn; reflexivity.
+  - destruct o; revert Hstep; unfold spec_step, rejected, abs, wake, after; rewrite <- ?overflows_leb;
+      start_op Hl Hs; ov_split; cbn;
+      intro Hstep; inversion Hstep; subst; clear Hstep; cbn in Hg; cbn; rewrite ?Hs; norm_words; unfold release_ff; rewrite ?app_nil_r; cbn; reflexivity.
+  - destruct o; revert Hstep; unfold spec_step, rejected, abs, wake, after; rewrite <- ?overflows_leb;
+      start_op Hl Hs; ov_split; try (destruct fe as [|F1 [|F2 fe]]); cbn;
+      intro Hstep; inversion Hstep; subst; clear Hstep; cbn in Hg; cbn; rewrite ?Hs; norm_words; unfold release_ff; rewrite ?app_nil_r;
+      cbn in Hne; rewrite ?Hne; cbn; reflexivity.
+Qed.
+
+(* the refinement really needs the guard: incrF past 2^60 returns (and hands to the readers it wakes) the unreduced sum *)
+Lemma incrF_wrap_refuted_l : exists x t inc x' evs,
+  shape x /\ step_var x t (IncrF inc) = (x', evs) /\ spec_step (abs x) t (IncrF inc) <> (abs x', evs) /\
+  evs = [Ret t RC_SUCCESS (Some two60)] /\ data_of (word x') = 0.
+Proof.
+  exists (mkV (build_unlocked (two60 - 1) 0) None), 7, 1.
+  eexists. eexists. split; [|split; [vm_compute; reflexivity|]].
+  - apply Sh0; vm_compute; reflexivity.
+  - split; [vm_compute; discriminate|]. split; vm_compute; reflexivity.
+Qed.
+
+(* ---------- the invariant in the form of DESIGN.md ---------- *)
+Definition efq (x : svar) := EFQ (get_or_new (rec x)).
+Definition feq (x : svar) := FEQ (get_or_new (rec x)).
+Definition ffq (x : svar) := FFQ (get_or_new (rec x)).
+Definition is_full (x : svar) : bool := negb (N.testbit (state_of (word x)) 1).
+
+Definition sv_inv (x : svar) : Prop :=
+  let st := state_of (word x) in
+  lock_of (word x) = false /\ st <= 3 /\
+  (st = 1 <-> is_full x = true /\ efq x <> []) /\
+  (st = 3 <-> is_full x = false /\ (feq x <> [] \/ ffq x <> [])) /\
+  (st = 0 \/ st = 2 -> efq x = [] /\ feq x = [] /\ ffq x = []) /\
+  (rec x <> None <-> efq x <> [] \/ feq x <> [] \/ ffq x <> []) /\
+  (* no blocked operation is enabled *)
+  (efq x <> [] -> is_full x = true) /\ (feq x <> [] \/ ffq x <> [] -> is_full x = false).
+
+Lemma shape_sv_inv : forall x, shape x -> sv_inv x.
+Proof.
+  intros x Hx. unfold sv_inv, efq, feq, ffq, is_full.
+  destruct Hx as [w Hw Hl Hs | w X es Hw Hl Hs Hv | w Hw Hl Hs | w fe ff Hw Hl Hs Hne]; cbn [word rec get_or_new addrstat_new EFQ FEQ FFQ];
+    rewrite Hs; cbn.
+  - repeat split; try assumption; try discriminate; try tauto; try (intros [? ?]; congruence); intuition congruence.
+  - repeat split; try assumption; try discriminate; try tauto; intuition congruence.
+  - repeat split; try assumption; try discriminate; try tauto; intuition congruence.
+  - assert (Hne' : fe <> [] \/ ff <> []).
+    { destruct fe; [destruct ff; [discriminate|right; discriminate]|left; discriminate]. }
+    repeat split; try assumption; try discriminate; try tauto; intuition congruence.
+Qed.
+
+(* ---------- several variables / whole runs ---------- *)
+Definition state_ok (s : state) : Prop := Forall (fun p => shape (snd p)) s.
+
+Lemma lookup_ok : forall s v x, state_ok s -> lookup s v = Some x -> shape x.
+Proof.
+  induction s as [|[k y] s IH]; intros v x Hs Hl; [discriminate|].
+  inversion Hs; subst. cbn in Hl. destruct (N.eqb k v).
+  - inversion Hl; subst. assumption.
+  - eapply IH; eassumption.
+Qed.
+
+Lemma update_ok : forall s v x, state_ok s -> shape x -> state_ok (update s v x).
+Proof.
+  induction s as [|[k y] s IH]; intros v x Hs Hx; [constructor|].
+  inversion Hs; subst. cbn. destruct (N.eqb k v); constructor; auto. apply IH; assumption.
+Qed.
+
+Lemma step_ok : forall s t v o s' evs,
+  state_ok s -> step s t v o = (s', evs) -> state_ok s' /\ has_fault evs = false.
+Proof.
+  intros s t v o s' evs Hs. unfold step. destruct (busy s t).
+  { intro H; inversion H; subst. split; [assumption|reflexivity]. }
+  destruct (lookup s v) as [x|] eqn:Hl.
+  - destruct (step_var x t o) as [x' e] eqn:Hsv. intro H; inversion H; subst.
+    destruct (step_var_shape _ _ _ _ _ (lookup_ok _ _ _ Hs Hl) Hsv) as [Hx' Hf].
+    split; [apply update_ok; assumption|exact Hf].
+  - intro H; inversion H; subst. split; [assumption|reflexivity].
+Qed.
+
+Lemma run_ok : forall script s s' tr,
+  state_ok s -> run s script = (s', tr) -> state_ok s' /\ Forall (fun evs => has_fault evs = false) tr.
+Proof.
+  induction script as [|[[t v] o] rest IH]; intros s s' tr Hs Hr; cbn in Hr.
+  - inversion Hr; subst. split; [assumption|constructor].
+  - destruct (step s t v o) as [s1 evs] eqn:H1. destruct (run s1 rest) as [s2 tr2] eqn:H2.
+    inversion Hr; subst.
+    destruct (step_ok _ _ _ _ _ _ Hs H1) as [Hs1 Hf].
+    destruct (IH _ _ _ Hs1 H2) as [Hs2 Hft]. split; [assumption|constructor; assumption].
+Qed.
+
+(* the states the API can start from *)
+Lemma shape_init : forall v,
+  shape (mkV SYNCVAR_INITIALIZER None) /\ shape (mkV SYNCVAR_EMPTY_INITIALIZER None) /\
+  shape (mkV (SYNCVAR_INITIALIZE_TO v) None) /\ shape (mkV (SYNCVAR_EMPTY_INITIALIZE_TO v) None).
+Proof.
+  intro v. unfold SYNCVAR_INITIALIZE_TO, SYNCVAR_EMPTY_INITIALIZE_TO, SYNCVAR_EMPTY_INITIALIZER.
+  repeat split.
+  - apply Sh0; vm_compute; reflexivity.
+  - apply Sh2; [apply build_lt | apply lock_of_build; reflexivity | apply state_of_build; reflexivity].
+  - apply Sh0; [apply build_lt | apply lock_of_build; reflexivity | apply state_of_build; reflexivity].
+  - apply Sh2; [apply build_lt | apply lock_of_build; reflexivity | apply state_of_build; reflexivity].
+Qed.
+
+(* ---------- wake-up clauses on the concrete model ---------- *)
+(* calls that make the variable full: the value the variable (and every released reader) gets *)
+Definition fill_op (o : op) (d : N) : option N :=
+  match o with
+  | Fill => Some d
+  | WriteF v | WriteEF v | WriteEF_nb v => if overflows v then None else Some v
+  | IncrF inc => Some (wrap64 (d + inc))
+  | _ => None
+  end.
+Definition empty_op (o : op) : bool := match o with Empty | ReadFE _ | ReadFE_nb _ => true | _ => false end.
+
+Lemma fill_releases_l : forall x t o nv x' evs,
+  shape x -> state_of (word x) = 3 -> fill_op o (data_of (word x)) = Some nv -> step_var x t o = (x', evs) ->
+  tl evs = map (fun b => Ret (w_tid b) RC_SUCCESS (dval (w_dest b) nv)) (ffq x ++ firstn 1 (feq x)) /\
+  ffq x' = [] /\ feq x' = skipn 1 (feq x) /\ efq x' = [] /\
+  data_of (word x') = wrap60 nv /\ is_full x' = negb (nonnil (feq x)) /\ shape x'.
+Proof.
+  intros x t o nv x' evs Hx Hs3 Hop Hstep.
+  pose proof (step_var_shape _ _ _ _ _ Hx Hstep) as [Hx' _].
+  destruct Hx as [w Hw Hl Hs | w X es Hw Hl Hs Hv | w Hw Hl Hs | w fe ff Hw Hl Hs Hne]; cbn in Hs3; try congruence.
+  unfold ffq, feq, efq, is_full. cbn in Hop.
+  destruct o; cbn in Hop; try discriminate; revert Hstep Hop; start_op Hl Hs; ov_split; try discriminate;
+    destruct fe as [|F1 [|F2 fe]]; cbn;
+    intros Hstep Hop; inversion Hstep; subst; clear Hstep; inversion Hop; subst; cbn;
+    norm_words; unfold release_ff; rewrite ?app_nil_r, ?map_app; cbn; repeat split; try reflexivity; try assumption.
+Qed.
+
+Lemma empty_releases_l : forall x t o x' evs,
+  shape x -> state_of (word x) = 1 -> empty_op o = true -> step_var x t o = (x', evs) ->
+  exists X rest, efq x = X :: rest /\
+  tl evs = [Ret (w_tid X) RC_SUCCESS None] /\ efq x' = rest /\ feq x' = [] /\ ffq x' = [] /\
+  data_of (word x') = w_val X /\ is_full x' = true /\ shape x'.
+Proof.
+  intros x t o x' evs Hx Hs1 Hop Hstep.
+  pose proof (step_var_shape _ _ _ _ _ Hx Hstep) as [Hx' _].
+  destruct Hx as [w Hw Hl Hs | w X es Hw Hl Hs Hv | w Hw Hl Hs | w fe ff Hw Hl Hs Hne]; cbn in Hs1; try congruence.
+  exists X, es. unfold ffq, feq, efq, is_full.
+  destruct o; cbn in Hop; try discriminate; revert Hstep; start_op Hl Hs; destruct es as [|X2 es]; cbn;
+    intros Hstep; inversion Hstep; subst; clear Hstep; cbn; norm_words; cbn; repeat split; try reflexivity; try assumption.
+Qed.
+
+(* a call that releases nobody keeps every waiter (and, by the invariant of x', the waiters flag and the record) *)
+Lemma no_release_keeps_waiters_l : forall x t o x' evs,
+  shape x -> step_var x t o = (x', evs) -> tl evs = [] ->
+  (evs = [Blocked t] /\ exists X, w_tid X = t /\
+      (efq x' = X :: efq x /\ feq x' = feq x /\ ffq x' = ffq x \/
+       efq x' = efq x /\ feq x' = X :: feq x /\ ffq x' = ffq x \/
+       efq x' = efq x /\ feq x' = feq x /\ ffq x' = X :: ffq x)) \/
+  (efq x' = efq x /\ feq x' = feq x /\ ffq x' = ffq x).
+Proof.
+  intros x t o x' evs Hx Hstep Htl.
+  destruct Hx as [w Hw Hl Hs | w X es Hw Hl Hs Hv | w Hw Hl Hs | w fe ff Hw Hl Hs Hne]; unfold ffq, feq, efq.
+  - destruct o; revert Hstep; start_op Hl Hs; ov_split; cbn; intro Hstep; inversion Hstep; subst; clear Hstep; cbn;
+      first [ right; repeat split; reflexivity | left; split; [reflexivity|]; eexists; split; [|eauto]; reflexivity ].
+  - destruct o; revert Hstep; start_op Hl Hs; ov_split; try (destruct es as [|X2 es]); cbn; intro Hstep; inversion Hstep; subst; clear Hstep;
+      cbn in Htl; try discriminate; cbn;
+      first [ right; repeat split; reflexivity | left; split; [reflexivity|]; eexists; split; [|eauto]; reflexivity ].
+  - destruct o; revert Hstep; start_op Hl Hs; ov_split; cbn; intro Hstep; inversion Hstep; subst; clear Hstep; cbn;
+      first [ right; repeat split; reflexivity | left; split; [reflexivity|]; eexists; split; [|eauto 6]; reflexivity ].
+  - destruct o; revert Hstep; start_op Hl Hs; ov_split; try (destruct fe as [|F1 [|F2 fe]]); try (destruct ff as [|G1 ff]); cbn;
+      intro Hstep; inversion Hstep; subst; clear Hstep;
+      cbn in Htl; try discriminate; try (cbn in Hne; discriminate); cbn;
+      first [ right; repeat split; reflexivity | left; split; [reflexivity|]; eexists; split; [|eauto 6]; reflexivity
+            | exfalso; destruct ff; discriminate ].
+Qed.
+
+(* ---------- incrF ---------- *)
+Lemma incrF_step_l : forall x t inc x' evs,
+  shape x -> step_var x t (IncrF inc) = (x', evs) ->
+  shape x' /\ data_of (word x') = wrap60 (data_of (word x) + inc) /\
+  hd Fault evs = Ret t RC_SUCCESS (Some (wrap64 (data_of (word x) + inc))).
+Proof.
+  intros x t inc x' evs Hx Hstep.
+  pose proof (step_var_shape _ _ _ _ _ Hx Hstep) as [Hx' _].
+  split; [exact Hx'|].
+  destruct Hx as [w Hw Hl Hs | w X es Hw Hl Hs Hv | w Hw Hl Hs | w fe ff Hw Hl Hs Hne];
+    revert Hstep; start_op Hl Hs; try (destruct fe as [|F1 [|F2 fe]]); cbn;
+    intro Hstep; inversion Hstep; subst; clear Hstep; cbn; rewrite data_of_build by reflexivity;
+    rewrite wrap60_wrap64; split; reflexivity.
+Qed.
+
+(* n incrF calls by any tasks, one after the other (each call is atomic: it holds the word lock) *)
+Fixpoint run_incr (x : svar) (l : list (N * N)) : svar * list (option event) :=
+  match l with
+  | [] => (x, [])
+  | (t, inc) :: rest =>
+      let '(x1, evs) := step_var x t (IncrF inc) in
+      let '(x2, r) := run_incr x1 rest in (x2, hd_error evs :: r)
+  end.
+Definition sum_incs (l : list (N * N)) : N := fold_right (fun p a => snd p + a) 0 l.
+(* what each call must return: the running sum (as a uint64_t) *)
+Fixpoint expected_returns (d : N) (l : list (N * N)) : list (option event) :=
+  match l with
+  | [] => []
+  | (t, inc) :: rest => Some (Ret t RC_SUCCESS (Some (wrap64 (d + inc)))) :: expected_returns (wrap60 (d + inc)) rest
+  end.
+
+Lemma incrF_atomic_l : forall l x x' rets,
+  shape x -> run_incr x l = (x', rets) ->
+  shape x' /\ data_of (word x') = wrap60 (data_of (word x) + sum_incs l) /\
+  rets = expected_returns (data_of (word x)) l.
+Proof.
+  induction l as [|[t inc] rest IH]; intros x x' rets Hx Hr; cbn in Hr.
+  - inversion Hr; subst. cbn. rewrite N.add_0_r.
+    split; [assumption|]. split; [|reflexivity].
+    symmetry. apply wrap60_small. apply data_of_lt.
+    destruct Hx; assumption.
+  - destruct (step_var x t (IncrF inc)) as [x1 evs] eqn:H1.
+    destruct (run_incr x1 rest) as [x2 r] eqn:H2. inversion Hr; subst.
+    destruct (incrF_step_l _ _ _ _ _ Hx H1) as [Hx1 [Hd1 Hh]].
+    destruct (IH _ _ _ Hx1 H2) as [Hx2 [Hd2 Hr2]].
+    split; [assumption|]. split.
+    + rewrite Hd2, Hd1. cbn [sum_incs fold_right snd]. rewrite wrap60_add_l. f_equal.
+      Transparent wrap60. unfold wrap60. Opaque wrap60. rewrite N.add_assoc. reflexivity.
+    + cbn [expected_returns]. rewrite Hr2, Hd1. f_equal.
+      destruct evs as [|e evs]; cbn in Hh; [discriminate|]. cbn. rewrite Hh. reflexivity.
+Qed.
+
+Lemma sum_incs_perm : forall l l', Permutation l l' -> sum_incs l = sum_incs l'.
+Proof.
+  intros l l' H. induction H; unfold sum_incs in *; cbn; lia.
+Qed.
+
+Lemma incrF_any_order_l : forall l l' x x1 r1 x2 r2,
+  shape x -> Permutation l l' -> run_incr x l = (x1, r1) -> run_incr x l' = (x2, r2) ->
+  data_of (word x1) = data_of (word x2).
+Proof.
+  intros l l' x x1 r1 x2 r2 Hx Hp H1 H2.
+  destruct (incrF_atomic_l _ _ _ _ Hx H1) as [_ [E1 _]].
+  destruct (incrF_atomic_l _ _ _ _ Hx H2) as [_ [E2 _]].
+  rewrite E1, E2, (sum_incs_perm _ _ Hp). reflexivity.
+Qed.
+
+(* when the sum stays below 2^60 the returned value IS the new value of the variable *)
+Lemma incrF_result_partial_l : forall x t inc x' evs,
+  shape x -> data_of (word x) + inc < two60 -> step_var x t (IncrF inc) = (x', evs) ->
+  hd Fault evs = Ret t RC_SUCCESS (Some (data_of (word x'))) /\ data_of (word x') = data_of (word x) + inc.
+Proof.
+  intros x t inc x' evs Hx Hlt Hstep.
+  destruct (incrF_step_l _ _ _ _ _ Hx Hstep) as [_ [Hd Hh]].
+  rewrite Hh, Hd, wrap64_small60, wrap60_small by assumption. split; reflexivity.
+Qed.
+
+(* ---------- non-blocking twins ---------- *)
+Definition twin (o : op) : option op :=
+  match o with ReadFF d => Some (ReadFF_nb d) | ReadFE d => Some (ReadFE_nb d) | WriteEF v => Some (WriteEF_nb v) | _ => None end.
+
+Lemma nb_twin_l : forall x t o o_nb,
+  shape x -> twin o = Some o_nb ->
+  (step_var x t o = (fst (step_var x t o), [Blocked t]) <-> step_var x t o_nb = (x, [Ret t RC_OPFAIL None])) /\
+  (snd (step_var x t o) <> [Blocked t] -> step_var x t o_nb = step_var x t o) /\
+  ~ In (Blocked t) (snd (step_var x t o_nb)).
+Proof.
+  intros x t o o_nb Hx Ht.
+  destruct Hx as [w Hw Hl Hs | w X es Hw Hl Hs Hv | w Hw Hl Hs | w fe ff Hw Hl Hs Hne];
+    destruct o; cbn in Ht; inversion Ht; subst; clear Ht;
+    start_op Hl Hs; ov_split; try (destruct es as [|X2 es]); try (destruct fe as [|F1 [|F2 fe]]); cbn;
+    (split; [split; intro H; first [reflexivity | discriminate H | inversion H]
+            | split; [intro H; first [reflexivity | (exfalso; apply H; reflexivity)]
+                     | intro H; cbn in H; repeat (destruct H as [H|H]; try discriminate H); try (apply in_app_or in H; destruct H as [H|H]);
+                       try (unfold release_ff in H; apply in_map_iff in H; destruct H as [? [H _]]; discriminate H);
+                       try (cbn in H; repeat (destruct H as [H|H]; try discriminate H)); try contradiction ]]).
 Qed.
